@@ -23,7 +23,29 @@ func init() {
 
 func histOut(h stats.Histogram, xs, qs, bs []float64) string {
 	var prevTotal uint
+	// read-only methods called at data-dependent moments between the Adds: looking at a histogram changes nothing
+	observe := func(k uint64) {
+		switch k % 7 {
+		case 0:
+			if b, ok := h.(interface{ Bounds() (float64, float64) }); ok {
+				b.Bounds()
+			}
+		case 1:
+			stats.HistogramQuantile(h, float64(k%11)/10)
+		case 2:
+			h.BinToValue(float64(k % 5))
+		case 3:
+			if a, ok := h.(interface{ At(float64) float64 }); ok {
+				a.At(float64(k%100) + 0.5)
+			}
+		case 4:
+			stats.HistogramIQR(h)
+		}
+	}
 	for i, x := range xs {
+		if i%3 == 1 {
+			observe(math.Float64bits(x)>>3 + uint64(i))
+		}
 		h.Add(x)
 		u, c, o := h.Counts()
 		t := u + o
@@ -102,6 +124,19 @@ func genC14(w *bufio.Writer, tier string, rng *rand.Rand) {
 					if rng.Intn(2) == 0 { // a tiny fraction of a bin width below / above an edge, far beyond rounding distance
 						xs[i] += bw * math.Pow(10, -float64(5+rng.Intn(9))) * float64(rng.Intn(2)*2-1)
 					}
+				case 5: // the closest floats to an edge, and distances from it far below one ulp of the bin width
+					e := mn + float64(rng.Intn(nb+1))*bw
+					if rng.Intn(2) == 0 {
+						e = mn
+					}
+					switch rng.Intn(3) {
+					case 0:
+						xs[i] = math.Nextafter(e, math.Inf(rng.Intn(2)*2-1))
+					case 1:
+						xs[i] = e + float64(rng.Intn(2)*2-1)*bw*math.Ldexp(1, -(40+rng.Intn(40)))
+					default:
+						xs[i] = e + float64(rng.Intn(2)*2-1)*[]float64{5e-324, 1e-300, 1e-100, 1e-30, 1e-20, 1e-17}[rng.Intn(6)]
+					}
 				case 2: // far outside
 					xs[i] = mn + (rng.Float64()*6-3)*width
 				case 3: // just around the top edge
@@ -142,6 +177,15 @@ func genC14(w *bufio.Writer, tier string, rng *rand.Rand) {
 					xs[i] = math.Pow(float64(b), float64(rng.Intn(nb+1))/m)
 					if rng.Intn(2) == 0 { // a tiny relative distance from an edge, far beyond rounding distance
 						xs[i] *= 1 + math.Pow(10, -float64(5+rng.Intn(7)))*float64(rng.Intn(2)*2-1)
+					}
+				case 5: // the closest floats to the first edge (1) and to the other edges
+					e := 1.0
+					if rng.Intn(2) == 0 {
+						e = math.Pow(float64(b), float64(rng.Intn(nb+1))/m)
+					}
+					xs[i] = math.Nextafter(e, math.Inf(rng.Intn(2)*2-1))
+					if rng.Intn(3) == 0 {
+						xs[i] = e
 					}
 				case 2: // far below / above
 					xs[i] = math.Exp(rng.NormFloat64() * 8)
